@@ -114,15 +114,6 @@ Fixpoint ordered (lo : Z) (h : list (Z * fop)) : Prop :=
   | (t, _) :: r => lo <= t /\ ordered t r
   end.
 
-(** clock and window are sane at every timestamp check, commands are well
-    formed, and a handler marks at most [mark_slack] after its timestamp check *)
-Definition hist_ok (cfg : fcfg) (h : list (Z * fop)) : Prop :=
-  forall t o, In (t, o) h ->
-    match o with
-    | ORecv _ c d => sane cfg (t - d) /\ wf_cmd c /\ 0 <= d <= mark_slack
-    | OCleanup _ => True
-    end.
-
 Lemma expire_keeps : forall now ex ca e, In e (expire now ex ca) <-> In e ca /\ now - e_at e <= ex.
 Proof.
   intros now ex ca e. unfold expire. rewrite filter_In. rewrite negb_true_iff, Z.ltb_ge. tauto.
@@ -147,85 +138,128 @@ Qed.
 
 (** ** At most once *)
 
-Lemma run_at_most_once_gen : forall cfg peers, f_signing cfg = true ->
-  forall h ca past lo acc,
-  ordered lo h -> hist_ok cfg h -> inv cfg ca past lo ->
-  NoDup (map (fun p => cmd_id (snd p)) past) ->
-  run cfg peers ca h = (acc, false) ->
-  NoDup (map (fun p => cmd_id (snd p)) (past ++ acc)).
+Definition ids (past : list (Z * cmd)) : list (N * N * N) := map (fun p => cmd_id (snd p)) past.
+
+(** what marking (by a handler or by an issue) does to the invariant of the
+    commands acted on so far *)
+Lemma inv_after_mark : forall cfg ca past lo now o i from ca' b,
+  inv cfg ca past lo -> lo <= now -> mark now o i from ca = (ca', b) ->
+  (forall t1 c1, In (t1, c1) past ->
+      (exists v1, v1 <= t1 /\ in_window cfg v1 (c_ts c1)) /\ t1 <= now /\
+      ((exists e, In e ca' /\ key_of_cmd c1 e /\ t1 <= e_at e) \/ sleep_expiry cfg < now - t1)) /\
+  (forall e', In e' ca' -> e_at e' <= now).
 Proof.
-  intros cfg peers Hs. induction h as [|[now o] r IH]; intros ca past lo acc Hord Hok Hinv Hnd Hrun.
-  - cbn in Hrun. inversion Hrun; subst. rewrite app_nil_r. exact Hnd.
+  intros cfg ca past lo now o i from ca' b [Hpast Hbound] Hlo M. split.
+  - intros t1 c1 Hin. destruct (Hpast t1 c1 Hin) as (Hw & Ht & [(e & He & Hk & Hat)|Hex]).
+    + split; [exact Hw|]. split; [lia|]. left.
+      destruct (mark_keeps _ _ _ _ _ _ _ M e He) as (e' & He' & [Ho Hi] & Hat').
+      exists e'. split; [exact He'|]. split.
+      * unfold key_of_cmd in *. rewrite Ho, Hi. exact Hk.
+      * specialize (Hbound e He). destruct Hat' as [->| ->]; lia.
+    + split; [exact Hw|]. split; [lia|]. right. lia.
+  - intros e' He'. destruct (mark_bounds _ _ _ _ _ _ _ M e' He') as [->|(e & He & ->)]; [lia|].
+    specialize (Hbound e He). lia.
+Qed.
+
+Lemma inv_same_cache : forall cfg ca past lo now, inv cfg ca past lo -> lo <= now -> inv cfg ca past now.
+Proof.
+  intros cfg ca past lo now [Hpast Hbound] Hlo. split.
+  - intros t1 c1 Hin. destruct (Hpast t1 c1 Hin) as (Hw & Ht & [H|H]); (split; [exact Hw|]); (split; [lia|]); [left; exact H|right; lia].
+  - intros e He. specialize (Hbound e He). lia.
+Qed.
+
+Lemma has_key_false : forall o i ca, has_key o i ca = false -> forall e, In e ca -> key_eqb o i e = false.
+Proof.
+  intros o i ca H e He. unfold has_key in H.
+  destruct (key_eqb o i e) eqn:K; [|reflexivity].
+  assert (existsb (key_eqb o i) ca = true) by (apply existsb_exists; exists e; auto). congruence.
+Qed.
+
+Lemma mark_no_key_fresh : forall now o i from ca, has_key o i ca = false ->
+  mark now o i from ca = (ca ++ [mkentry o i now from], true).
+Proof.
+  intros now o i from ca. induction ca as [|e r IH]; intros H; cbn [mark]; [reflexivity|].
+  cbn [has_key existsb] in H. apply orb_false_iff in H as [K H]. rewrite K.
+  fold (has_key o i r) in H. rewrite (IH H). reflexivity.
+Qed.
+
+(** adding a command acted on at [now] whose entry was just appended *)
+Lemma inv_add : forall cfg ca' past now c v from,
+  (forall t1 c1, In (t1, c1) past ->
+      (exists v1, v1 <= t1 /\ in_window cfg v1 (c_ts c1)) /\ t1 <= now /\
+      ((exists e, In e ca' /\ key_of_cmd c1 e /\ t1 <= e_at e) \/ sleep_expiry cfg < now - t1)) ->
+  (forall e', In e' ca' -> e_at e' <= now) ->
+  v <= now -> in_window cfg v (c_ts c) -> In (mkentry (c_origin c) (c_id c) now from) ca' ->
+  inv cfg ca' ((now, c) :: past) now.
+Proof.
+  intros cfg ca' past now c v from Hpast Hb Hv Hwin Hin. split; [|exact Hb].
+  intros t1 c1 [Heq|H]; [|apply Hpast; exact H].
+  inversion Heq; subst t1 c1. split; [exists v; split; assumption|]. split; [lia|]. left.
+  exists (mkentry (c_origin c) (c_id c) now from). split; [exact Hin|]. split; [split; reflexivity|cbn; lia].
+Qed.
+
+(** clock and window sane at every timestamp check, commands well formed, a
+    handler marks at most [mark_slack] after its timestamp check, and a
+    command the agent issues for the first time is stamped inside the window
+    (TriggerSleep / TriggerWake stamp it with the current time) *)
+Definition hist_ok (cfg : fcfg) (h : list (Z * fop)) : Prop :=
+  forall t o, In (t, o) h ->
+    match o with
+    | ORecv _ c d => sane cfg (t - d) /\ wf_cmd c /\ 0 <= d <= mark_slack
+    | OCleanup _ => True
+    | OIssue _ c first => first = true -> in_window cfg t (c_ts c)
+    end.
+
+Lemma run_fresh_gen : forall cfg peers, f_signing cfg = true ->
+  forall h ca past lo acc seen,
+  ordered lo h -> hist_ok cfg h -> inv cfg ca past lo ->
+  (forall x, In x seen -> In x (ids past)) ->
+  run cfg peers ca h = (acc, false) ->
+  fresh_acc seen acc.
+Proof.
+  intros cfg peers Hs. induction h as [|[now o] r IH]; intros ca past lo acc seen Hord Hok Hinv Hseen Hrun.
+  - cbn in Hrun. inversion Hrun; subst. exact I.
   - destruct Hord as [Hlo Hord].
     assert (Hok' : hist_ok cfg r) by (intros t o' Hin; apply Hok; right; exact Hin).
     pose proof (Hok now o (or_introl eq_refl)) as Hthis.
-    destruct Hinv as [Hpast Hbound].
-    destruct o as [from c d|v]; cbn [run run_with] in Hrun.
+    destruct o as [from c d|v|k c first]; cbn [run run_with] in Hrun.
     + (* delivery: timestamp check at now - d, marking at now *)
       destruct Hthis as (Hsane & Hwf & Hd).
       fold (run cfg peers) in Hrun.
       destruct (handle_split cfg (now - d) now peers from c ca) as [ca' res] eqn:Hh.
       destruct (run cfg peers ca' r) as [acc' ov] eqn:Hr.
-      assert (Hca' : forall e, In e ca -> exists e', In e' ca' /\ same_key e' e /\ (e_at e' = e_at e \/ e_at e' = now)).
-      { unfold handle_split in Hh.
-        destruct (existsb (N.eqb (f_local cfg)) (c_seenby c)); [inversion Hh; subst; intros e He; exists e; repeat split; auto|].
-        destruct (negb (verify cfg (now - d) c)); [inversion Hh; subst; intros e He; exists e; repeat split; auto|].
-        destruct (mark now (c_origin c) (c_id c) from ca) as [cm fresh] eqn:M.
-        assert (ca' = cm) by (destruct fresh; inversion Hh; reflexivity). subst cm.
-        eapply mark_keeps; eauto. }
-      assert (Hb' : forall e', In e' ca' -> e_at e' <= now).
-      { unfold handle_split in Hh.
-        destruct (existsb (N.eqb (f_local cfg)) (c_seenby c)); [inversion Hh; subst; intros e He; specialize (Hbound e He); lia|].
-        destruct (negb (verify cfg (now - d) c)); [inversion Hh; subst; intros e He; specialize (Hbound e He); lia|].
-        destruct (mark now (c_origin c) (c_id c) from ca) as [cm fresh] eqn:M.
-        assert (ca' = cm) by (destruct fresh; inversion Hh; reflexivity). subst cm.
-        intros e' He'. destruct (mark_bounds _ _ _ _ _ _ _ M e' He') as [->|(e & He & ->)]; [lia|].
-        specialize (Hbound e He). lia. }
-      (* the old acceptances still satisfy the invariant at [now] *)
-      assert (Hpast' : forall t1 c1, In (t1, c1) past ->
-                (exists v1, v1 <= t1 /\ in_window cfg v1 (c_ts c1)) /\ t1 <= now /\
-                ((exists e, In e ca' /\ key_of_cmd c1 e /\ t1 <= e_at e) \/ sleep_expiry cfg < now - t1)).
-      { intros t1 c1 Hin. destruct (Hpast t1 c1 Hin) as (Hw & Ht & [(e & He & Hk & Hat)|Hex]).
-        - split; [exact Hw|]. split; [lia|]. left.
-          destruct (Hca' e He) as (e' & He' & [Ho Hi] & Hat').
-          exists e'. split; [exact He'|]. split.
-          + unfold key_of_cmd in *. rewrite Ho, Hi. exact Hk.
-          + specialize (Hbound e He). destruct Hat' as [->| ->]; lia.
-        - split; [exact Hw|]. split; [lia|]. right. lia. }
-      destruct res as [tg|].
+      unfold handle_split in Hh.
+      destruct (existsb (N.eqb (f_local cfg)) (c_seenby c)).
+      { injection Hh as <- <-. injection Hrun as <- ->.
+        eapply IH; [exact Hord|exact Hok'|eapply inv_same_cache; eauto|exact Hseen|exact Hr]. }
+      destruct (verify cfg (now - d) c) eqn:Hv; cbn [negb] in Hh.
+      2:{ injection Hh as <- <-. injection Hrun as <- ->.
+          eapply IH; [exact Hord|exact Hok'|eapply inv_same_cache; eauto|exact Hseen|exact Hr]. }
+      destruct (mark now (c_origin c) (c_id c) from ca) as [cm fresh] eqn:M.
+      destruct (inv_after_mark _ _ _ _ _ _ _ _ _ _ Hinv Hlo M) as [Hpast' Hb'].
+      destruct fresh.
       * (* accepted *)
-        inversion Hrun; subst acc ov; clear Hrun.
-        pose proof (handle_split_accepts_only_verified _ _ _ _ _ _ _ _ _ Hh) as Hv.
+        injection Hh as <- <-. injection Hrun as <- ->.
         pose proof (verify_sound _ _ _ Hs Hsane Hwf Hv) as (_ & _ & Hwin).
-        unfold handle_split in Hh.
-        destruct (existsb (N.eqb (f_local cfg)) (c_seenby c)); [discriminate|].
-        rewrite Hv in Hh. cbn [negb] in Hh.
-        destruct (mark now (c_origin c) (c_id c) from ca) as [cm fresh] eqn:M.
-        destruct fresh; [|discriminate]. inversion Hh; subst cm; clear Hh.
         destruct (mark_fresh _ _ _ _ _ _ M) as [Hnokey Happ].
-        (* the command was not accepted before *)
-        assert (Hnew : ~ In (cmd_id c) (map (fun p => cmd_id (snd p)) past)).
+        assert (Hnew : ~ In (cmd_id c) (ids past)).
         { intros Hin. apply in_map_iff in Hin as ([t1 c1] & Hid & Hin). cbn [snd] in Hid.
           unfold cmd_id in Hid. inversion Hid as [[Ho Hi Hts]].
+          destruct Hinv as [Hpast _].
           destruct (Hpast t1 c1 Hin) as ((v1 & Hv1 & Hw1) & Ht1 & [(e & He & [Hko Hki] & Hat)|Hex]).
           - specialize (Hnokey e He). assert (key_eqb (c_origin c) (c_id c) e = true).
             { apply key_eqb_true. split; congruence. }
             congruence.
           - rewrite Hts in Hw1. pose proof (in_window_span _ _ _ _ Hw1 Hwin).
             pose proof (expiry_ge_two_windows cfg). lia. }
-        replace (past ++ (now, c) :: acc') with ((past ++ [(now, c)]) ++ acc') by (rewrite <- app_assoc; reflexivity).
-        apply (IH ca' (past ++ [(now, c)]) now acc' Hord Hok').
-        -- split; [|exact Hb'].
-           intros t1 c1 Hin. apply in_app_or in Hin as [Hin|[Heq|[]]].
-           ++ apply Hpast'. exact Hin.
-           ++ inversion Heq; subst t1 c1. split; [exists (now - d); split; [lia|exact Hwin]|]. split; [lia|]. left.
-              exists (mkentry (c_origin c) (c_id c) now from). split; [rewrite Happ; apply in_or_app; right; left; reflexivity|].
-              split; [split; reflexivity|cbn; lia].
-        -- rewrite map_app. cbn [map snd]. apply NoDup_app_single; assumption.
-        -- exact Hr.
-      * (* rejected *)
-        inversion Hrun; subst acc ov; clear Hrun.
-        apply (IH ca' past now acc' Hord Hok'); [split; [exact Hpast'|exact Hb']|exact Hnd|exact Hr].
+        cbn [fresh_acc]. split; [intros _ Hin; apply Hnew, Hseen, Hin|].
+        eapply (IH cm ((now, c) :: past) now acc'); [exact Hord|exact Hok'| | |exact Hr].
+        -- eapply (inv_add cfg cm past now c (now - d) from); [exact Hpast'|exact Hb'|lia|exact Hwin|].
+           rewrite Happ. apply in_or_app. right. left. reflexivity.
+        -- intros x [<-|Hx]; [left; reflexivity|right; apply Hseen, Hx].
+      * (* duplicate *)
+        injection Hh as <- <-. injection Hrun as <- ->.
+        eapply (IH cm past now acc'); [exact Hord|exact Hok'|split; [exact Hpast'|exact Hb']|exact Hseen|exact Hr].
     + (* cleanup pass *)
       fold (run cfg peers) in Hrun.
       change (cleanup_with sleep_expiry cfg now v ca) with (cleanup cfg now v ca) in Hrun.
@@ -233,7 +267,8 @@ Proof.
       injection Hrun as Hacc Hov. subst acc.
       apply orb_false_iff in Hov as [Hov0 Hov]. subst ov.
       rewrite (cleanup_no_overflow _ _ _ _ Hov0) in Hr.
-      apply (IH (expire now (sleep_expiry cfg) ca) past now acc' Hord Hok'); [|exact Hnd|exact Hr].
+      destruct Hinv as [Hpast Hbound].
+      apply (IH (expire now (sleep_expiry cfg) ca) past now acc' seen Hord Hok'); [|exact Hseen|exact Hr].
       split.
       * intros t1 c1 Hin. destruct (Hpast t1 c1 Hin) as (Hw & Ht & [(e & He & Hk & Hat)|Hex]).
         -- split; [exact Hw|]. split; [lia|].
@@ -242,23 +277,63 @@ Proof.
            ++ right. lia.
         -- split; [exact Hw|]. split; [lia|]. right. lia.
       * intros e He. apply expire_keeps in He as [He _]. specialize (Hbound e He). lia.
+    + (* the agent issues a command *)
+      fold (run cfg peers) in Hrun.
+      destruct (run cfg peers (issue_mark cfg now c ca) r) as [acc' ov] eqn:Hr.
+      injection Hrun as Hacc Hov. apply orb_false_iff in Hov as [Hclash Hov]. subst ov.
+      unfold issue_mark in Hr.
+      destruct (mark now (c_origin c) (c_id c) (f_local cfg) ca) as [cm fresh] eqn:M. cbn [fst] in Hr.
+      destruct (inv_after_mark _ _ _ _ _ _ _ _ _ _ Hinv Hlo M) as [Hpast' Hb'].
+      destruct first.
+      * subst acc. cbn [fresh_acc]. split; [intros E; discriminate|].
+        cbn [andb] in Hclash.
+        rewrite (mark_no_key_fresh _ _ _ _ _ Hclash) in M. injection M as <- <-.
+        eapply (IH _ ((now, c) :: past) now acc'); [exact Hord|exact Hok'| | |exact Hr].
+        -- eapply (inv_add cfg _ past now c now (f_local cfg)); [exact Hpast'|exact Hb'|lia|exact (Hthis eq_refl)|].
+           apply in_or_app. right. left. reflexivity.
+        -- intros x [<-|Hx]; [left; reflexivity|right; apply Hseen, Hx].
+      * subst acc.
+        eapply (IH cm past now acc'); [exact Hord|exact Hok'|split; [exact Hpast'|exact Hb']|exact Hseen|exact Hr].
 Qed.
 
-(** For every history (deliveries of genuine, replayed and forged commands
-    from any peers, each handler's marking up to [mark_slack] after its
-    timestamp check and interleaved with other handlers and cleanup passes with
-    any eviction oracle) that starts with an empty cache, has nondecreasing
-    instants and never overflows the cache: no signed content (origin, id,
-    timestamp) is accepted twice. *)
+(** For every history - deliveries of genuine, replayed and forged commands
+    from any peers (each handler's marking up to [mark_slack] after its
+    timestamp check, interleaved with other handlers), cleanup passes with any
+    eviction oracle, and commands the agent issues itself - that starts with an
+    empty cache, has nondecreasing instants and never overflows the cache: an
+    accepted delivery is never of a signed content (origin, id, timestamp) the
+    agent has acted on before, whether it accepted it from a peer or issued it
+    itself. *)
 Theorem at_most_once : forall cfg peers h acc t0,
   f_signing cfg = true -> ordered t0 h -> hist_ok cfg h ->
   run cfg peers [] h = (acc, false) ->
-  NoDup (map (fun p => cmd_id (snd p)) acc).
+  fresh_acc [] acc.
 Proof.
   intros cfg peers h acc t0 Hs Hord Hok Hrun.
-  apply (run_at_most_once_gen cfg peers Hs h [] [] t0 acc Hord Hok); [|constructor|exact Hrun].
+  apply (run_fresh_gen cfg peers Hs h [] [] t0 acc [] Hord Hok); [|intros x []|exact Hrun].
   split; [intros t1 c1 []|intros e []].
 Qed.
+
+(** in particular the accepted deliveries are pairwise different commands *)
+Lemma fresh_acc_nodup : forall acc seen, fresh_acc seen acc ->
+  NoDup (map (fun p => cmd_id (snd p)) (accepted acc)) /\
+  forall x, In x (map (fun p => cmd_id (snd p)) (accepted acc)) -> ~ In x seen.
+Proof.
+  induction acc as [|[[t c] issued] r IH]; intros seen H; cbn [fresh_acc] in H.
+  - split; [constructor|intros x []].
+  - destruct H as [Hf Hr]. destruct (IH _ Hr) as [Hnd Hdis].
+    unfold accepted in *. cbn [filter snd]. destruct issued; cbn [negb].
+    + split; [exact Hnd|]. intros x Hx Hs. apply (Hdis x Hx). right. exact Hs.
+    + cbn [map fst snd]. split.
+      * constructor; [|exact Hnd]. intros Hin. apply (Hdis _ Hin). left. reflexivity.
+      * intros x [<-|Hx]; [apply Hf; reflexivity|]. intros Hs. apply (Hdis x Hx). right. exact Hs.
+Qed.
+
+Theorem accepted_once : forall cfg peers h acc t0,
+  f_signing cfg = true -> ordered t0 h -> hist_ok cfg h ->
+  run cfg peers [] h = (acc, false) ->
+  NoDup (map (fun p => cmd_id (snd p)) (accepted acc)).
+Proof. intros. eapply fresh_acc_nodup. eapply at_most_once; eauto. Qed.
 
 (** forged commands never enter the cache (so they cannot cause an overflow) *)
 Theorem forged_leaves_cache : forall cfg now peers from c ca,
@@ -293,11 +368,11 @@ Qed.
 Lemma refuted_ttl_lt_validity_pre_fix :
   ordered T0 hist_ttl /\ hist_ok (default_cfg true) hist_ttl /\
   run_pre_fix (default_cfg true) model_peers [] hist_ttl
-  = ([(T0, ahead_cmd); (T0 + 451 * second, ahead_cmd)], false).
+  = ([(T0, ahead_cmd, false); (T0 + 451 * second, ahead_cmd, false)], false).
 Proof. destruct hist_ttl_ok as [H1 H2]. split; [exact H1|]. split; [exact H2|]. vm_compute. reflexivity. Qed.
 
 Example ttl_history_repaired :
-  run (default_cfg true) model_peers [] hist_ttl = ([(T0, ahead_cmd)], false).
+  run (default_cfg true) model_peers [] hist_ttl = ([(T0, ahead_cmd, false)], false).
 Proof. vm_compute. reflexivity. Qed.
 
 (** the race the slack is for: the replay's timestamp check passes at the last
@@ -311,10 +386,10 @@ Definition hist_race : list (Z * fop) :=
 
 Example race_history_repaired :
   ordered T0 hist_race /\ hist_ok (default_cfg true) hist_race /\
-  run (default_cfg true) model_peers [] hist_race = ([(T0, ahead_cmd)], false) /\
+  run (default_cfg true) model_peers [] hist_race = ([(T0, ahead_cmd, false)], false) /\
   (* without the slack: *)
   run_with handle_split (fun cfg => Z.max (f_ttl cfg) (2 * f_window cfg)) (default_cfg true) model_peers [] hist_race
-  = ([(T0, ahead_cmd); (T0 + 600 * second + 2000000, ahead_cmd)], false).
+  = ([(T0, ahead_cmd, false); (T0 + 600 * second + 2000000, ahead_cmd, false)], false).
 Proof.
   split; [vm_compute; intuition congruence|]. split.
   - intros t o Hin. unfold hist_race in Hin.
@@ -335,11 +410,11 @@ Definition hist_flood : list (Z * fop) :=
 
 Lemma refuted_flood_evict_pre_fix :
   ordered T0 hist_flood /\
-  fst (run_pre_fix small_cfg model_peers [] hist_flood) = [(T0, now_cmd); (T0 + 151 * second, now_cmd)].
+  fst (run_pre_fix small_cfg model_peers [] hist_flood) = [(T0, now_cmd, false); (T0 + 151 * second, now_cmd, false)].
 Proof. split; [vm_compute; intuition congruence|vm_compute; reflexivity]. Qed.
 
 Example flood_history_repaired :
-  run small_cfg model_peers [] hist_flood = ([(T0, now_cmd)], false).
+  run small_cfg model_peers [] hist_flood = ([(T0, now_cmd, false)], false).
 Proof. vm_compute. reflexivity. Qed.
 
 (** non-vacuity of [at_most_once]: a history with a replay from another
@@ -347,8 +422,35 @@ Proof. vm_compute. reflexivity. Qed.
     is accepted (once). *)
 Example at_most_once_nonvacuous :
   ordered T0 hist_ttl /\ hist_ok (default_cfg true) hist_ttl /\ f_signing (default_cfg true) = true /\
-  run (default_cfg true) model_peers [] hist_ttl = ([(T0, ahead_cmd)], false).
+  run (default_cfg true) model_peers [] hist_ttl = ([(T0, ahead_cmd, false)], false).
 Proof.
   destruct hist_ttl_ok as (H1 & H2).
   split; [exact H1|]. split; [exact H2|]. split; [reflexivity|vm_compute; reflexivity].
+Qed.
+
+(** the agent issues a signed command itself (TriggerSleep), later floods it
+    again, and is then sent its own command back with the unsigned SeenBy list
+    emptied or rewritten: never accepted *)
+Definition own_cmd : cmd := mkcmd 0 77 946684800 false true [0%N].
+Definition own_cmd_stripped : cmd := mkcmd 0 77 946684800 false true [].
+Definition own_cmd_rewritten : cmd := mkcmd 0 77 946684800 false true [2%N].
+Definition hist_issue : list (Z * fop) :=
+  [ (T0, OIssue KSleep own_cmd true);
+    (T0 + second, ORecv 1 own_cmd_stripped 0);
+    (T0 + 2 * second, OIssue KSleep own_cmd false);
+    (T0 + 150 * second, OCleanup []);
+    (T0 + 299 * second, ORecv 2 own_cmd_rewritten 0);
+    (T0 + 300 * second, ORecv 3 own_cmd 0) ].
+
+Example issued_command_not_accepted_back :
+  ordered T0 hist_issue /\ hist_ok (default_cfg true) hist_issue /\
+  run (default_cfg true) model_peers [] hist_issue = ([(T0, own_cmd, true)], false).
+Proof.
+  split; [vm_compute; intuition congruence|]. split; [|vm_compute; reflexivity].
+  intros t o Hin. unfold hist_issue in Hin.
+  repeat (destruct Hin as [Hin|Hin]; [inversion Hin; subst; cbn match; try exact I;
+    first [ intros _; unfold in_window; vm_compute; intuition congruence
+          | intros E; discriminate
+          | (split; [unfold sane; vm_compute; intuition congruence|split; [vm_compute; reflexivity|vm_compute; intuition congruence]]) ]|]).
+  destruct Hin.
 Qed.
